@@ -52,6 +52,8 @@ T("time-then-date", [N(2), ":", N(2), " ", N(2), "/", N(2), "/", N(4)])
 T("ampm-after-minutes", ["10:", N(2), " pm"])
 T("two-ampm", [N(2), " am pm"])
 T("utc-offset", ["10:00 UTC+", N(2)])
+T("gmt-minus", ["2003-09-25 10:49:41 GMT-", N(1)])
+T("tzname-offset4", ["10:49 BRST-", N(4)])
 T("paren-tz", ["2003-09-25 10:49 -", N(4), " (BRST)"])
 
 
@@ -102,6 +104,9 @@ def h_total(name, options):
             same = S.and_(S.eq(ra.year, rb.year), S.eq(ra.month, rb.month), S.eq(ra.day, rb.day), S.eq(ra.hour, rb.hour),
                           S.eq(ra.minute, rb.minute), S.eq(ra.second, rb.second), S.eq(ra.microsecond, rb.microsecond))
             ctx.check(same, "the same call gives a different datetime the second time", key="state-value:" + name)
+            oa, ob = ra.utcoffset(), rb.utcoffset()
+            ctx.check((oa is None) == (ob is None) and (oa is None or S.eq(oa.days * 86400 + oa.seconds, ob.days * 86400 + ob.seconds)),
+                      "the same call gives a different UTC offset the second time (state left behind)", key="state-offset:" + name)
         return a[0]
 
     def st():
